@@ -76,13 +76,27 @@ pub enum Error {
 impl From<Error> for io::Error {
     fn from(v: Error) -> Self {
         match v {
-            Error::AbortRequest => io::ErrorKind::ConnectionAborted.into(),
+            e @ Error::AbortRequest => Self::new(io::ErrorKind::ConnectionAborted, e),
             e @ (Error::UnknownVersion(_)
             | Error::InvalidRequestLen(_)
             | Error::NullRequest
             | Error::Protocol(_)) => Self::new(io::ErrorKind::InvalidData, e),
             e => Self::new(io::ErrorKind::Other, e),
         }
+    }
+}
+
+impl Error {
+    /// Tests whether `e` was converted from [`Error::AbortRequest`].
+    ///
+    /// A transport may fail with [`io::ErrorKind::ConnectionAborted`] on its
+    /// own, so the error kind alone does not identify an aborted request.
+    #[must_use]
+    pub fn is_abort_request(e: &io::Error) -> bool {
+        matches!(
+            e.get_ref().and_then(|e| e.downcast_ref::<Self>()),
+            Some(Self::AbortRequest),
+        )
     }
 }
 
